@@ -266,7 +266,9 @@ func WithClientIPResolver(resolver ClientIPResolver) Option {
 // packages that use route annotation.
 func WithAnnotation(key, value any) RouteOption {
 	return routeOptionFunc(func(s sealedOption) error {
-		if !reflect.TypeOf(key).Comparable() {
+		// The key must be usable as a map key: a nil key has no type, and a comparable static type (an interface,
+		// or a struct or array holding one) may still hold a value that is not hashable.
+		if key == nil || !reflect.ValueOf(key).Comparable() {
 			return fmt.Errorf("%w: annotation key is not comparable", ErrInvalidConfig)
 		}
 		if s.route.annots == nil {
